@@ -1,4 +1,8 @@
 #![cfg_attr(docsrs, feature(doc_cfg))]
+// Verification hook (nightly only, `--cfg sentinel_verif_sched` + feature `verif_std`): compile this crate
+// against `verif_std`, a shadow of `std` whose synchronisation primitives are visible to a scheduler.
+#![cfg_attr(sentinel_verif_sched, no_std)]
+#![cfg_attr(sentinel_verif_sched, feature(prelude_import))]
 #![cfg_attr(docsrs, allow(unused_attributes))]
 #![doc(html_logo_url = "https://avatars.githubusercontent.com/u/43955412")]
 
@@ -136,6 +140,14 @@
 //!
 // This module is not intended to be part of the public API. In general, any
 // `doc(hidden)` code is not part of Sentinel's public and stable API.
+#[cfg(sentinel_verif_sched)]
+#[macro_use]
+extern crate verif_std as std;
+#[cfg(sentinel_verif_sched)]
+#[prelude_import]
+#[allow(unused_imports)]
+use std::prelude::rust_2021::*;
+
 #[macro_use]
 #[doc(hidden)]
 pub mod macros;
